@@ -413,3 +413,210 @@ func twoKeys(e *ev.Env, c *ev.Case) {
 	stat(e, "twokeys_cases", 1)
 	e.Nontrivial("twokeys", c.ID)
 }
+
+// ---------------------------------------------------------------------------------------------
+
+// cookieLines: requests parsed from the wire whose cookies arrive in SEVERAL `Cookie` header lines
+// (a proxy or an HTTP/2 front end splits and joins them freely): an empty or whitespace-only line
+// first / in the middle / last, one cookie per line, several per line, the same name in two
+// lines, other headers in between - next to the single-line form. The handler's view follows
+// the usual clauses: an issued value arrives as its plaintext, anything else as "", an excepted
+// cookie as sent; never other text.
+func cookieLines(e *ev.Env, c *ev.Case, fixed []string) {
+	r := c.R
+	names := pickNames(r, 5)
+	exName := names[4]
+	g := newRig(r, []string{exName})
+	other := newRigKey(r.Bytes(len(g.keyRaw)), []string{exName})
+	wire := drive.NewWire(g.d.App)
+	cfg := map[string]any{"key_len": len(g.keyRaw), "except": []string{exName}}
+
+	plain := map[string]string{}
+	var set []setInstr
+	for _, n := range names[:4] {
+		plain[n] = uid(r, r.Range(4, 9))
+		set = append(set, setInstr{Name: n, Value: plain[n], Path: "/"})
+	}
+	var iss, foreign map[string]string
+	if e.Guard(c, "issue-cookielines", cfg, func() { iss = g.issue(set); foreign = other.issue(set) }) {
+		return
+	}
+	for _, n := range names[:4] {
+		if len(iss[n]) < 8 || len(foreign[n]) < 8 {
+			stat(e, "cookielines_skipped_nothing_issued", 1)
+			return
+		}
+	}
+	// the cookies of this request
+	var list []sent
+	cnt := r.Range(1, 6)
+	for i := 0; i < cnt; i++ {
+		n := names[r.PickW(4, 3, 2, 1, 2)]
+		switch {
+		case n == exName:
+			v := genExceptValue(r)
+			list = append(list, mkSent(n, v, "excepted", v))
+		case r.Chance(1, 2):
+			list = append(list, mkSent(n, iss[n], "authentic", plain[n]))
+		case r.Bool():
+			list = append(list, mkSent(n, gen.Pick(r, []string{"admin", "guest", "1", plain[n]}), "forged", ""))
+		default:
+			list = append(list, mkSent(n, foreign[n], "forged", ""))
+		}
+	}
+	// ... spread over header lines
+	var lines []string
+	if fixed != nil {
+		pairs := ""
+		for i, s := range list {
+			if i > 0 {
+				pairs += "; "
+			}
+			pairs += s.name + "=" + s.v
+		}
+		for _, f := range fixed {
+			lines = append(lines, strings.ReplaceAll(f, "%", pairs))
+		}
+	} else {
+		blank := func() string { return gen.Pick(r, []string{"", "", " ", "  ", "\t"}) }
+		cur := ""
+		for i, s := range list {
+			p := s.name + "=" + s.v
+			if cur != "" && r.Chance(1, 2) {
+				cur += gen.Pick(r, []string{"; ", "; ", ";"}) + p
+			} else {
+				if cur != "" {
+					lines = append(lines, cur)
+				}
+				cur = p
+			}
+			if i == len(list)-1 {
+				lines = append(lines, cur)
+			}
+		}
+		// blank lines: first / middle / last
+		for k := r.PickW(2, 3, 2, 1); k > 0; k-- {
+			at := r.PickW(3, 2, 2)
+			switch at {
+			case 0:
+				lines = append([]string{blank()}, lines...)
+			case 1:
+				i := r.Intn(len(lines) + 1)
+				lines = append(lines[:i:i], append([]string{blank()}, lines[i:]...)...)
+			default:
+				lines = append(lines, blank())
+			}
+		}
+	}
+	var req strings.Builder
+	req.WriteString("GET /read HTTP/1.1\r\nHost: h.example\r\n")
+	for i, l := range lines {
+		if fixed == nil && i > 0 && r.Chance(1, 4) {
+			req.WriteString("X-Between: " + uid(r, 2) + "\r\n")
+		}
+		req.WriteString("Cookie:")
+		if l != "" || (fixed == nil && r.Bool()) {
+			req.WriteString(" ")
+		}
+		req.WriteString(l + "\r\n")
+	}
+	req.WriteString("\r\n")
+	cfg["cookie_header_lines"] = lines
+
+	count := map[string]int{}
+	var ask []string
+	for _, s := range list {
+		if count[s.name] == 0 {
+			ask = append(ask, s.name)
+		}
+		count[s.name]++
+	}
+	sort.Strings(ask)
+	g.w.reset()
+	g.w.ask = ask
+	var out []byte
+	if e.Guard(c, "cookielines", cfg, func() { out, _ = wire.Serve([]byte(req.String()), nil) }) {
+		return
+	}
+	e.Eval(1)
+	stat(e, "cookielines_requests", 1)
+	blanks, nonBlank := 0, 0
+	for _, l := range lines {
+		if strings.TrimSpace(l) == "" {
+			blanks++
+		} else {
+			nonBlank++
+		}
+	}
+	if blanks > 0 {
+		stat(e, "cookielines_with_blank_line", 1)
+		if strings.TrimSpace(lines[0]) == "" {
+			stat(e, "cookielines_blank_line_first", 1)
+		}
+	}
+	if nonBlank > 1 {
+		stat(e, "cookielines_several_non_blank_lines", 1)
+	}
+	rs, perr := strict.ParseAll(out, nil)
+	if perr != nil || len(rs) != 1 || rs[0].Status != 200 || g.w.entered != 1 {
+		// a server may refuse such a request; then nothing reached a handler
+		stat(e, "cookielines_request_not_served", 1)
+		return
+	}
+	e.Nontrivial("cookielines", c.ID)
+	for _, n := range ask {
+		var mine []sent
+		for _, s := range list {
+			if s.name == n {
+				mine = append(mine, s)
+			}
+		}
+		vs := visitOf(g.w.visited, n)
+		got := g.w.got[n]
+		det := func() map[string]any {
+			var sh []string
+			for _, s := range mine {
+				sh = append(sh, s.kind)
+			}
+			return map[string]any{"config": cfg, "name": n, "entries_of_name": sh, "cookies_view": printable(got), "visit_view": vs}
+		}
+		if len(mine) == 1 {
+			s := mine[0]
+			if got == s.expect && eqStrs(vs, []string{s.expect}) {
+				stat(e, "cookielines_single_ok", 1)
+				continue
+			}
+			switch s.kind {
+			case "excepted":
+				e.Violation(c, "except|request|altered", "excepted cookie altered on the way in (several Cookie header lines)", det())
+			case "forged":
+				e.Violation(c, "tamper|Cookies|several-cookie-header-lines|"+gotClass(got, s.v), "a cookie value not issued under the current key reached the handler as text (several Cookie header lines)", det())
+			default:
+				e.Violation(c, "handler-view|authentic-single|authentic-cookie-lost|several-cookie-header-lines", "authentic cookie did not reach the handler with its original value (several Cookie header lines)", det())
+			}
+			return
+		}
+		if mine[0].kind == "excepted" {
+			continue // duplicates of an excepted name: the multi family judges them
+		}
+		allowed := map[string]bool{}
+		for _, s := range mine {
+			if s.kind == "authentic" {
+				allowed[s.expect] = true
+			} else {
+				allowed[""] = true
+			}
+		}
+		bad := !allowed[got]
+		for _, v := range vs {
+			if !allowed[v] {
+				bad = true
+			}
+		}
+		if bad {
+			e.Violation(c, "handler-view|duplicate-name|several-cookie-header-lines", "with one name in several cookies the handler sees a value that is neither an issued plaintext of that name nor empty", det())
+			return
+		}
+		stat(e, "cookielines_duplicate_ok", 1)
+	}
+}
